@@ -1,12 +1,14 @@
 /-
-C09, part 5: copies.  Two states of one world share the heap of token-map cells.  Independence of a copy is a statement about
-that heap: a state can be influenced from outside ONLY through cells it references (`TokStore.shared`).
+C09, part 5: copies, first layer.  Two states of one world share the heap of token-map cells.  Independence of a copy is a
+statement about that heap: a state can be influenced from outside ONLY through cells it references (`TokStore.shared`).
 * `copy_independent_partial`  — every observable except token balances is independent of the heap, i.e. of anything any other
-  state does, for the current code;
-* `noShared_frame`            — a state without shared cells never writes the heap and stays without shared cells;
-* `copy_repaired_noShared`    — with the repaired `deepCopy` (clone the map) `Copy` creates no shared cell and leaves the
-  original untouched; together: `copy_independent_repaired`.
-The counterexample for the current code is in `Props.C09`.
+  state does, for ANY configuration (this was the strongest true statement before fix 9e64f31);
+* `noShared_frame`            — a state without shared cells never writes the heap and stays without shared cells (mutators);
+* `copy_repaired_noShared`    — with the `deepCopy` that clones the map (the tree since fix 9e64f31) `Copy` creates no shared
+  cell and leaves the original untouched; together: `copy_independent_repaired` (mutator sequences on either side).
+The full second clause for the current tree (all operations incl. snapshots, reverts, Finalise, Commit, copies of copies) is
+`world_independent` in Props/C09World.lean, built on `NS` (Props/C09NoShared.lean); the refutation for the pinned tree is
+`C09_copy_pinned_counterexample` in Props/C09.lean.
 -/
 import LinkVerif.Props.C09Revert
 
@@ -20,7 +22,7 @@ def obsWith (h : Ref → TokMap) (s : State) : Obs := obs { heap := h, nextRef :
 def AccObs.noTok (x : AccObs) : Nat × Nat × Int × Bytes × (Key → Bytes) × Bool × Bool :=
   (x.nonce, x.credits, x.balance, x.code, x.stor, x.suicided, x.empty)
 
-/-- **partial independence (current code).**  Whatever happens to the heap — i.e. whatever any copy, copy of a copy or the
+/-- **partial independence (any configuration, also the sharing `deepCopy` of the pinned tree).**  Whatever happens to the heap — i.e. whatever any copy, copy of a copy or the
 original does — nonce, credits, balance, code, storage, suicide mark, existence, emptiness, refund and logs of a state do not move. -/
 theorem copy_independent_partial (h h' : Ref → TokMap) (s : State) :
     (∀ a, ((obsWith h s).acct a).map AccObs.noTok = ((obsWith h' s).acct a).map AccObs.noTok) ∧
@@ -215,7 +217,7 @@ theorem copy_repaired_noShared (cfg : Cfg) (hc : cfg.cloneTokens = true) (c : Ct
           · simp [hba] at hb; exact h2 b o' hb
     · exact ⟨rfl, h2⟩
 
-/-- **C09, second clause, for the repaired `deepCopy`.**  In a world where no state holds a shared cell (which the repaired `Copy`
+/-- **C09, second clause, mutator histories, for the cloning `deepCopy` (the current tree).**  In a world where no state holds a shared cell (which the repaired `Copy`
 preserves: `copy_repaired_noShared`), any mutator sequence on the copy leaves every observable of the original unchanged, and
 any mutator sequence on the original leaves every observable of the copy unchanged. -/
 theorem copy_independent_repaired (cfg : Cfg) (hc : cfg.cloneTokens = true) (c : Ctx) (hn : NSo c.st) (ops : List Op) :
